@@ -8,6 +8,21 @@ VERIF = os.path.dirname(os.path.dirname(os.path.abspath(__file__)))
 PY = "/venv/bin/python harness/vcheck.py"
 
 CLAIMED = {
+    "C05": dict(
+        category="proof", design_ref="DESIGN.md 5 C05",
+        text="Lean 4 theorems for arbitrary face lists (non-manifold, repeated indices, repeated faces, "
+             "unreferenced vertices, any length) over an executable model of the topology queries: edges and "
+             "edges_face layout, face adjacency = counting definition (shared sorted edge occurring exactly "
+             "twice, once in each face), watertight <-> every sorted edge twice, winding consistency <-> "
+             "paired edges opposed, unique edges + inverse, Euler number, vertex degree / incident faces / "
+             "neighbours by counting, and connected components = reflexive-transitive closure of adjacency "
+             "(label relaxation proved sound and complete, so the result is engine independent). Tied to the "
+             "code by an exact differential run of every query on both graph engines, exhaustive small scopes "
+             "in the thorough tier; the angle-defect law is checked numerically on closed meshes.",
+        note="Trusted: Lean kernel (+propext/Classical.choice/Quot.sound), the Python harness; scipy csgraph / "
+             "networkx are modelled by label relaxation (contract: connected components); vertex_defects "
+             "(arccos) only by correspondence at 1e-9; degree counts one per occurrence of a vertex index.",
+        technique="Lean 4 proof over hand-written executable model + differential correspondence (line protocol)"),
     "C06": dict(
         category="proof", design_ref="DESIGN.md 5 C06",
         text="Lean 4 theorems over an executable model of grouping.py: bit packing is injective under the code's "
